@@ -1,8 +1,9 @@
 SPECIFICATION GSpec
 CONSTANTS
   Ctls = {"c1", "c2", "c3"}
-  Depth = 5
-  Upd = {"c2"}
+  Depth = 7
+  Upd = {"c1", "c2", "c3"}
+  UpdAny = FALSE
 CONSTRAINT Bound
 INVARIANT Emit1
 CHECK_DEADLOCK FALSE
